@@ -682,7 +682,18 @@ func constOf(a AV) (constant.Value, bool) {
 }
 
 func sameValue(x, y AV) (eq, known bool) {
+	if d, ok := x.(Dyn); ok {
+		if _, isD := y.(Dyn); !isD {
+			x = d.V
+		}
+	} else if d, ok := y.(Dyn); ok {
+		y = d.V
+	}
 	switch a := x.(type) {
+	case Const:
+		if b, ok := y.(Const); ok {
+			return constant.Compare(a.V, token.EQL, b.V), true
+		}
 	case Ref:
 		if b, ok := y.(Ref); ok {
 			return a.ID == b.ID, true
@@ -1048,6 +1059,37 @@ func (in *Interp) instrs(st *State, b, pred *ssa.BasicBlock, idx int, k kont) {
 				}
 				break
 			}
+			// a map allocated on this path (MakeMap) whose contents are fully known
+			if mo := st.Obj(x); mo != nil && mo.Kind == 'm' && mo.Opaque == "" {
+				var hit AV
+				found, uncertain := false, false
+				for i, k := range mo.Elems {
+					eq, known := sameValue(key, k)
+					if !known {
+						uncertain = true
+					} else if eq {
+						hit, found = mo.Fields[fmt.Sprint(i)], true
+					}
+				}
+				if found || !uncertain {
+					vt := ins.Type()
+					if ins.CommaOk {
+						vt = ins.Type().(*types.Tuple).At(0).Type()
+					}
+					if !found {
+						hit = Zero{vt}
+						if b, ok := vt.Underlying().(*types.Basic); ok && b.Info()&types.IsBoolean != 0 {
+							hit = mkBool(false)
+						}
+					}
+					if ins.CommaOk {
+						in.set(st, ins, Tuple{[]AV{hit, mkBool(found)}})
+					} else {
+						in.set(st, ins, hit)
+					}
+					break
+				}
+			}
 			v := AV(Expr{Op: "lookup", Args: []AV{x, key}})
 			if ins.CommaOk {
 				in.set(st, ins, Tuple{[]AV{v, Expr{Op: "lookup.ok", Args: []AV{x, key}}}})
@@ -1055,6 +1097,26 @@ func (in *Interp) instrs(st *State, b, pred *ssa.BasicBlock, idx int, k kont) {
 				in.set(st, ins, v)
 			}
 		case *ssa.MapUpdate:
+			if mo := st.Obj(in.val(st, ins.Map)); mo != nil && mo.Kind == 'm' && mo.Opaque == "" {
+				key, val := in.val(st, ins.Key), in.val(st, ins.Value)
+				done := false
+				for i, k := range mo.Elems {
+					eq, known := sameValue(key, k)
+					if !known {
+						mo.Opaque = "map with keys of unknown equality" // an older entry may have been overwritten
+					} else if eq {
+						mo.Fields[fmt.Sprint(i)] = val
+						done = true
+					}
+				}
+				if !done {
+					if mo.Fields == nil {
+						mo.Fields = map[string]AV{}
+					}
+					mo.Fields[fmt.Sprint(len(mo.Elems))] = val
+					mo.Elems = append(mo.Elems, key)
+				}
+			}
 			st.Events = append(st.Events, Event{Kind: "mapupdate", Target: in.val(st, ins.Map).String(), Args: []AV{in.val(st, ins.Map), in.val(st, ins.Key), in.val(st, ins.Value)}, Pos: ins.Pos(), Stack: st.stackString()})
 		case *ssa.BinOp:
 			in.set(st, ins, in.binop(ins.Op, in.val(st, ins.X), in.val(st, ins.Y), ins.Type()))
@@ -1091,7 +1153,7 @@ func (in *Interp) instrs(st *State, b, pred *ssa.BasicBlock, idx int, k kont) {
 		case *ssa.MakeSlice:
 			in.set(st, ins, NonNil{"makeslice"})
 		case *ssa.MakeMap:
-			r := st.alloc(&Obj{T: ins.Type(), Kind: 'c', Site: "makemap", Val: NonNil{"map"}})
+			r := st.alloc(&Obj{T: ins.Type(), Kind: 'm', Site: "makemap", Val: NonNil{"map"}})
 			in.set(st, ins, r)
 		case *ssa.MakeChan:
 			in.set(st, ins, NonNil{"chan"})
